@@ -343,6 +343,9 @@ func c07alphabet() []c07op {
 	return []c07op{
 		call("1", 'G'), call("1", 'i'), call("1", 'n'), call("1", 'e'), call("1", 'q'), call("1", 'r'),
 		call("12", 'G'), call("12", 'i'), call(`"a"`, 'G'), call(`"1"`, 'G'), call("1", 'b'),
+		// string ids whose text is not what an encoder would write (an escaped solidus, HTML
+		// metacharacters): reserved and released under the same key like any other
+		call(`"x\/y<&>"`, 'i'), call(`"x\/y<&>"`, 'G'),
 		call("", 'G'), // gated notification: parks the dispatcher for later messages
 		batch(c07member{ID: "1", Kind: 'G'}, c07member{ID: "1", Kind: 'G'}),
 		// an id three and four times in one batch, next to an innocent member: all bearers fail
